@@ -228,7 +228,7 @@ def handleExpected (a : Args) : String :=
     | .errFinish => "errfinish"
   | _, _ => "bad-op"
 
-/-- `opts.validate kind=lzma|lzma2|xz dict= lc= lp= pb= nice= [fids=<ids> fprops=<props>] [preset=<len>]` -/
+/-- `opts.validate kind=lzma|lzma2|xz dict= lc= lp= pb= nice= [fids=<ids> fprops=<props>]` -/
 def handleOpts (a : Args) : String :=
   match a.get? "kind", a.nat? "dict", a.nat? "lc", a.nat? "lp", a.nat? "pb", a.nat? "nice" with
   | some kind, some dict, some lc, some lp, some pb, some nice =>
@@ -236,7 +236,7 @@ def handleOpts (a : Args) : String :=
     let ok := match kind with
       | "lzma" => Options.validate o false
       | "lzma2" => Options.validate o true
-      | _ => Options.xzValidate o (((a.nats? "fids").getD []).zip ((a.nats? "fprops").getD [])) ((a.nat? "preset").getD 0)
+      | _ => Options.xzValidate o (((a.nats? "fids").getD []).zip ((a.nats? "fprops").getD []))
     if ok then "ok" else "err"
   | _, _, _, _, _, _ => "bad-op"
 
